@@ -55,11 +55,11 @@ theorem cs_delete_file (st : St) (r : Regs) :
 theorem cs_load_file (st : St) (r : Regs) :
     (runLocked H csLoad st r).1 = st ∨
     (Represents (runLocked H csLoad st r).1.cachedContent (runLocked H csLoad st r).1.cache) := by
-  have hp : csLoad = [.lock, .guardChangedLoaded, .decode, .guardDecodeOk, .buildMaps, .setCachedContent, .setLookup, .setCache, .liveReplaceTcpLocal, .liveReplaceUdpLocal, .unlock, .ret] := rfl
+  have hp : csLoad = [.lock, .readFile, .deferClose, .guardChangedLoaded, .decode, .guardDecodeOk, .buildMaps, .setCachedContent, .setLookup, .setCache, .liveReplaceTcpLocal, .liveReplaceUdpLocal, .unlock, .ret] := rfl
   rw [hp]
-  by_cases hskip : st.loaded = true ∧ r.content = st.cachedContent
+  by_cases hskip : st.loaded = true ∧ st.file = st.cachedContent
   · left; simp [runLocked, exec, touch, hskip.1, hskip.2]
-  cases hd : decodeDoc r.content with
+  cases hd : decodeDoc st.file with
   | none => left; simp [runLocked, exec, touch, hskip, hd]
   | some l =>
     cases hb : build H st.pskLen l with
@@ -98,6 +98,9 @@ theorem act_file (s : Sys) (a : Act) (hs : SysInv H s) (hf : FileInv s) : FileIn
     · simp [hp] at h3
     · simp only [hp] at h2 h3 ⊢
       exact hf h1 h2 h3
+  | edit d =>
+    intro h1 h2 h3
+    exact hf h1 h2 h3
   | save =>
     intro h1 h2 h3
     simp only [Sys.act, save] at h1 h2 h3 ⊢
@@ -193,5 +196,110 @@ theorem run_file (as : List Act) (s : Sys) (hs : SysInv H s) (hf : FileInv s) : 
 theorem start_file (st : St) (ops : List Op) (hsy : Synced st) : FileInv (Sys.start st ops) := by
   intro _ h2 _
   exact hsy.rep h2
+
+
+/-! ### the file itself: `file = cachedContent` is stable while nobody else edits the file
+
+With the read of the store file inside the critical section (regenerated `loadProg` starts with `lock`),
+a reload installs exactly what is on disk at that moment, and a save writes what it records. -/
+
+/-- a segment leaves the file alone and leaves `cachedContent` alone or sets it to the file -/
+def FC (st st' : St) : Prop :=
+  st'.file = st.file ∧ (st'.cachedContent = st.cachedContent ∨ st'.cachedContent = st.file)
+
+theorem fc_refl (st : St) : FC st st := ⟨rfl, Or.inl rfl⟩
+
+theorem cs_add_fc (st : St) (r : Regs) (hl : st.loaded = true) : FC st (runLocked H csAdd st r).1 := by
+  have hp : csAdd = [.lock, .guardAbsent, .hashKey, .guardHashFree, .mkConfig, .guardConfigOk, .mkCred, .cacheSet, .lookupSet, .liveSet, .unlock, .enqueueSave, .ret] := rfl
+  rw [hp]
+  by_cases h1 : (find st.cache r.name).isSome = true
+  · simp [runLocked, exec, touch, h1, FC]
+  by_cases h2 : (find st.lookup (H r.key)).isSome = true
+  · simp [runLocked, exec, touch, h1, h2, FC]
+  simp [runLocked, exec, touch, h1, h2, hl, liveUpd, FC]
+
+theorem cs_update_fc (st : St) (r : Regs) : FC st (runLocked H csUpdate st r).1 := by
+  have hp : csUpdate = [.lock, .loadUc, .guardPresent, .guardKeyDiffers, .hashKey, .guardHashFree, .mkConfig, .guardConfigOk, .saveOldHash, .cacheUpdKey, .lookupDelOld, .lookupSet, .liveDelOldSet, .unlock, .enqueueSave, .ret] := rfl
+  rw [hp]
+  cases h0 : find st.cache r.name with
+  | none => simp [runLocked, exec, touch, h0, FC]
+  | some k0 =>
+    by_cases h1 : k0 = r.key
+    · simp [runLocked, exec, touch, h0, h1, FC]
+    by_cases h2 : (find st.lookup (H r.key)).isSome = true
+    · simp [runLocked, exec, touch, h0, h1, h2, FC]
+    simp [runLocked, exec, touch, h0, h1, h2, liveUpd, FC]
+
+theorem cs_delete_fc (st : St) (r : Regs) : FC st (runLocked H csDelete st r).1 := by
+  have hp : csDelete = [.lock, .loadUc, .guardPresent, .cacheDel, .lookupDelUc, .liveDelUc, .unlock, .enqueueSave, .ret] := rfl
+  rw [hp]
+  cases h0 : find st.cache r.name with
+  | none => simp [runLocked, exec, touch, h0, FC]
+  | some k0 => simp [runLocked, exec, touch, h0, liveUpd, FC]
+
+theorem cs_load_fc (st : St) (r : Regs) : FC st (runLocked H csLoad st r).1 := by
+  have hp : csLoad = [.lock, .readFile, .deferClose, .guardChangedLoaded, .decode, .guardDecodeOk, .buildMaps, .setCachedContent, .setLookup, .setCache, .liveReplaceTcpLocal, .liveReplaceUdpLocal, .unlock, .ret] := rfl
+  rw [hp]
+  by_cases hskip : st.loaded = true ∧ st.file = st.cachedContent
+  · simp [runLocked, exec, touch, hskip.1, hskip.2, FC]
+  cases hd : decodeDoc st.file with
+  | none => simp [runLocked, exec, touch, hskip, hd, FC]
+  | some l =>
+    cases hb : build H st.pskLen l with
+    | none => simp [runLocked, exec, touch, hskip, hd, hb, FC]
+    | some pr =>
+      obtain ⟨lk, c⟩ := pr
+      simp [runLocked, exec, touch, hskip, hd, hb, FC]
+
+theorem seg_fc (t : Thread) (ht : t.prog ∈ allCuts) (st : St) (hl : st.loaded = true) : FC st (seg H st t).1 := by
+  obtain ⟨q, r, res⟩ := t
+  have hk := allCuts_ok q ht
+  cases q with
+  | nil => exact fc_refl st
+  | cons s rest =>
+    simp only [okHead, Bool.or_eq_true, beq_iff_eq] at hk
+    rcases hk with (((hk | hk) | hk) | hk) | hk
+    · rw [seg_neutral H s hk]
+      rcases neutral_file H s hk st r with ⟨he, _⟩ | ⟨_, hsame⟩
+      · subst he; exact ⟨rfl, Or.inl rfl⟩
+      · cases s <;> simp [neutral] at hk <;> first
+          | (simp only [exec]; split <;> exact fc_refl st)
+          | exact fc_refl st
+    · rw [hk]; exact cs_add_fc H st r hl
+    · rw [hk]; exact cs_update_fc H st r
+    · rw [hk]; exact cs_delete_fc H st r
+    · rw [hk]; exact cs_load_fc H st r
+
+theorem act_fileEq (s : Sys) (a : Act) (hs : SysInv H s) (hne : a.isEdit = false)
+    (he : s.st.file = s.st.cachedContent) : (s.act H a).st.file = (s.act H a).st.cachedContent := by
+  cases a with
+  | edit d => simp [Act.isEdit] at hne
+  | dequeue =>
+    simp only [Sys.act, dequeue]
+    split <;> exact he
+  | save =>
+    simp only [Sys.act, save]
+    split
+    · rfl
+    · exact he
+  | thread i =>
+    simp only [Sys.act]
+    cases hti : s.threads[i]? with
+    | none => simpa [hti] using he
+    | some t =>
+      simp only []
+      have htc := hs.cuts t (List.mem_of_getElem? hti)
+      obtain ⟨h1, h2⟩ := seg_fc H t htc s.st hs.inv.loaded
+      rcases h2 with h2 | h2
+      · rw [h1, h2]; exact he
+      · rw [h1, h2]
+
+theorem run_fileEq (as : List Act) (s : Sys) (hs : SysInv H s) (hne : ∀ a ∈ as, a.isEdit = false)
+    (he : s.st.file = s.st.cachedContent) : (s.run H as).st.file = (s.run H as).st.cachedContent := by
+  induction as generalizing s with
+  | nil => exact he
+  | cons a as ih =>
+    exact ih _ (act_inv H s a hs) (fun b hb => hne b (List.mem_cons_of_mem a hb))
+      (act_fileEq H s a hs (hne a (List.mem_cons_self)) he)
 
 end SSV.Cred
